@@ -888,6 +888,33 @@ func execute(cs Case) (o *outcome, r *run, infra string) {
 		return nil, r, err.Error()
 	}
 	defer r.p.Close()
+	// Every bound of this check is wall-clock time measured here. When the test process itself stands still for seconds
+	// (seen once: the whole sandbox frozen for ~70 s while a snapshot of it was taken; the old server then "exited 30 s
+	// late") the case says nothing about mosn: a monitor notices gaps in its own 100 ms ticks and the case is inconclusive.
+	var worstGap int64
+	monStop := make(chan struct{})
+	go func() {
+		last := time.Now()
+		t := time.NewTicker(100 * time.Millisecond)
+		defer t.Stop()
+		for {
+			select {
+			case <-monStop:
+				return
+			case now := <-t.C:
+				if g := int64(now.Sub(last)); g > atomic.LoadInt64(&worstGap) {
+					atomic.StoreInt64(&worstGap, g)
+				}
+				last = now
+			}
+		}
+	}()
+	defer func() {
+		close(monStop)
+		if g := time.Duration(atomic.LoadInt64(&worstGap)); g > 5*time.Second && infra == "" {
+			o, infra = nil, fmt.Sprintf("the test process itself was not scheduled for %v during the case (machine frozen / overloaded): wall-clock bounds are meaningless", g)
+		}
+	}()
 	if cs.Signal == "SIGHUP" {
 		// the old server listens for the new one on conf/reconfig.sock one second after its start
 		end := time.Now().Add(startDeadline)
